@@ -22,7 +22,7 @@ EXTRACT = ["C14"]
 BINS = ["c14"]
 NEEDS_CICADA = True
 ALLOWED_AXIOMS = []
-PINNED = ["C14_interp", "C14_interp_inv", "C14_parse_full", "C14_parse_partial", "C14_parse_partial_from", "C14_trim_cmd", "C14_anchored", "C14_unbalanced_diagnosed",
+PINNED = ["C14_interp", "C14_interp_inv", "C14_cond_list", "C14_parse_full", "C14_parse_partial", "C14_parse_partial_from", "C14_trim_cmd", "C14_anchored", "C14_unbalanced_diagnosed",
           "C14_anchor_sound", "C14_full"]
 TRUSTED = [
     "Coq 8.16.1 kernel (coqc; coqchk in thorough); vm_compute in Example witnesses, in C14_unbalanced_refuted and in the "
@@ -32,7 +32,9 @@ TRUSTED = [
     "tools/pest2coq.py (grammar.pest -> Gen/LocustGrammar.v), run on every check",
     "hand transcription of scripting.rs run_lines/run_exp/run_exp_if/run_exp_test_br/run_exp_for/run_exp_while/get_for_* "
     "(Model/Script.v), tied by L2",
-    "oracles: run_line = expand_args + run_command_line of one line (statuses of the pipelines run), for_words = the word "
+    "oracles: run_line = expand_args + run_command_line of one line (statuses of the pipelines run) -- in the checks it is "
+    "the extracted C03 model (Model/ListExec.v via Model/CondLine.v run_line_of) over a per-pipeline helper oracle, so "
+    "condition lines that are and-or lists are decided by the last EXECUTED pipeline (C14_cond_list); for_words = the word "
     "list of a `for`, set_var = set_env; their behaviour for helper commands is assumed and compared with the binary in L2",
     "extraction: ExtrOcamlBasic only; OCaml 4.13.1; ocaml/c14/drv.ml (codec, AST reader, helper oracle)",
     "harness/src/bin/c14.rs, helpers/hp.c, helpers/seq.c, drive/c14.py",
@@ -79,15 +81,45 @@ class Gen:
             l += " $" + self.rng.choice(scope)
         return l
 
-    def cond(self, in_loop):
-        if in_loop and self.rng.random() < 0.5:
+    def atom(self, in_loop, st=None):
+        """one pipeline of a condition: hp with a fixed status, or (in loops) seq with a status sequence"""
+        if st is None and in_loop and self.rng.random() < 0.35:
             n = self.rng.randint(1, 4)
             return "%s %s %s" % (self.seq, self.fresh("k"), ",".join(str(self.rng.choice([0, 1, 0, 3])) for _ in range(n)))
-        return "%s @x%d %s" % (self.hp, self.rng.choice([0, 1, 0, 2]), self.fresh("c"))
+        if st is None:
+            st = self.rng.choice([0, 1, 0, 2])
+        return "%s @x%d %s" % (self.hp, st, self.fresh("c"))
+
+    def cond(self, in_loop):
+        """condition line of an if / else-if head: a single pipeline or an and-or list (`||` `&&` `;`) of up to three,
+        every failure pattern: the line's status is that of its last EXECUTED pipeline"""
+        r = self.rng.random()
+        if r < 0.35:
+            return self.atom(in_loop)
+        k = 2 if r < 0.75 else 3
+        parts = [self.atom(in_loop)]
+        for _ in range(k - 1):
+            parts.append(self.rng.choice([" || ", " && ", " ; ", " || ", " && "]))
+            parts.append(self.atom(in_loop))
+        return "".join(parts)
 
     def wcond(self):
+        """condition line of a while head; the scripted sequence S ends non-zero, and every shape makes the line's
+        status non-zero once S is: the loop ends"""
         n = self.rng.randint(0, 3)
-        return "%s %s %s" % (self.seq, self.fresh("k"), ",".join(["0"] * n + [str(self.rng.choice([1, 2, 255]))]))
+        S = "%s %s %s" % (self.seq, self.fresh("k"), ",".join(["0"] * n + [str(self.rng.choice([1, 2, 255]))]))
+        r = self.rng.random()
+        if r < 0.35:
+            return S
+        if r < 0.5:
+            return "%s || %s" % (self.atom(False, self.rng.choice([1, 2])), S)          # a failing first pipeline, then S decides
+        if r < 0.65:
+            return "%s ; %s" % (self.atom(False, self.rng.choice([0, 1, 3])), S)        # S is the last executed
+        if r < 0.8:
+            return "%s && %s" % (S, self.atom(False, 0))                                 # S fails: && skipped, status S
+        if r < 0.9:
+            return "%s || %s && %s" % (self.atom(False, 1), S, self.atom(False, 0))
+        return "%s && %s" % (self.atom(False, 0), S)
 
     def block(self, depth, in_loop, scope, budget):
         """returns wire string of a block with 1..4 statements"""
@@ -235,7 +267,8 @@ def run(ctx, res):
                 "every sequence of <= %d lines over %d keyword-heavy line fragments, the renderings of %d random ASTs and 3 mutants "
                 "of each (dropped line, truncation, stray keyword, CRLF, no final newline, non-ASCII); L1b: tree_of_script vs pest's "
                 "trimmed tree for each rendering; L2: each AST (depth <= 4, <= 30 nodes; if with 0..3 else-if arms and optional else, "
-                "for over 0..4 words, while with a scripted status sequence, break/continue inside and outside loops, both spellings, "
+                "for over 0..4 words, while with a scripted status sequence, condition lines that are and-or lists (`||` `&&` `;`, up to three pipelines, every "
+                "failure pattern, in if / else-if / while heads, guarding break / continue), break/continue inside and outside loops, both spellings, "
                 "varied indentation, blank lines) run by the real binary, ordered helper trace and exit status vs sem_block; "
                 "non-trivial = distinct trace with a skipped branch or a loop; NEG: unbalanced variants through the binary"
                 % (maxk, len(LINE_ALPHA), n_ast))
